@@ -94,7 +94,7 @@ fn auth_covers(b: &[u8], s: &AuthSplit) {
 fn uri_authority_body<const N: usize>() {
     let t = Text::<N>::any();
     let b = t.bytes();
-    assume(tables::t_uri_authority_valid(b));
+    assume(tables::t_uri_authority_valid_k(b, N));
     let a = unsafe { uri::Authority::new_unchecked(b) };
     let want = split_auth(b);
     check_authority(a, &want);
@@ -105,7 +105,7 @@ fn uri_authority_body<const N: usize>() {
 fn iri_authority_body<const N: usize>() {
     let t = Text::<N>::any();
     let b = t.bytes();
-    assume(tables::t_iri_authority_valid(b));
+    assume(tables::t_iri_authority_valid_k(b, N));
     let a = unsafe { iri::Authority::new_unchecked(as_str(b)) };
     let want = split_auth(b);
     check_authority(a, &want);
@@ -145,17 +145,17 @@ pub fn c03_iri_authority_n14() {
 fn parts_valid<const N: usize>() {
     let t = Text::<N>::any();
     let b = t.bytes();
-    assume(tables::t_uri_authority_valid(b));
+    assume(tables::t_uri_authority_valid_k(b, N));
     let a = unsafe { uri::Authority::new_unchecked(b) };
     let p = a.parts();
     if let Some(u) = p.user_info {
         assert!(uri::UserInfo::new(u.as_bytes()).is_ok(), "returned user info is not a valid UserInfo");
     }
-    assert!(tables::t_uri_host_valid(p.host.as_bytes()), "returned host is not a valid Host");
+    assert!(tables::t_uri_host_valid_k(p.host.as_bytes(), N), "returned host is not a valid Host");
     if let Some(q) = p.port {
         assert!(uri::Port::new(q.as_bytes()).is_ok(), "returned port is not a valid Port");
     }
-    assert!(tables::t_uri_host_valid(a.host().as_bytes()), "host() is not a valid Host");
+    assert!(tables::t_uri_host_valid_k(a.host().as_bytes(), N), "host() is not a valid Host");
     cover!(p.user_info.is_some() && p.port.is_some(), "user info and port present");
 }
 
@@ -171,7 +171,7 @@ pub fn c03_uri_parts_valid_n9() {
 fn embedded<const N: usize>() {
     let t = Text::<N>::any();
     let b = t.bytes();
-    assume(tables::t_uri_uriref_valid(b));
+    assume(tables::t_uri_uriref_valid_k(b, N));
     let r = unsafe { iref_core::UriRef::new_unchecked(b) };
     if let Some(a) = r.authority() {
         let want = split_auth(a.as_bytes());
